@@ -19,6 +19,9 @@ import (
 type c02Case struct {
 	Img  *gen.Img
 	Opts *gen.Opts
+	// FaultPermille > 0: the encode is repeated with writers that fail after k bytes (k at the
+	// container's header boundaries, at the last bytes and at this fraction of the file)
+	FaultPermille int
 }
 
 func genC02(t *rapid.T) *c02Case {
@@ -34,6 +37,9 @@ func genC02(t *rapid.T) *c02Case {
 	}
 	if rapid.IntRange(0, 2).Draw(t, "withMeta") == 0 {
 		c.Opts.DrawMeta(t, 60)
+	}
+	if rapid.IntRange(0, 5).Draw(t, "faultWriter") == 0 {
+		c.FaultPermille = rapid.IntRange(1, 999).Draw(t, "faultAt")
 	}
 	// rare: large noisy pictures at high quality, so that token partitions exceed 64 KiB (the
 	// 3-byte partition size fields and large chunk sizes are otherwise never exercised)
@@ -177,6 +183,20 @@ func checkC02(c *c02Case, o *core.Obs) error {
 			sig += fmt.Sprintf("p%d|s%v|f%v%v|pass%d|t%v|sh%v|pp%d", fr.VP8.NumPartitions, fr.VP8.SegEnabled, fr.VP8.FilterSimple, fr.VP8.FilterLevel == 0, c.Opts.Pass, c.Opts.TargetSize > 0 || c.Opts.TargetPSNRBits != 0, c.Opts.UseSharpYUV, c.Opts.Preprocessing)
 		}
 		o.NonTrivial("%s", sig)
+	}
+	if c.FaultPermille > 0 && c.Img.W*c.Img.H <= 1<<16 {
+		// injected fault: the writer fails after k bytes; Encode must not report success for the torso
+		for _, k := range faultBudgets(len(data), c.FaultPermille) {
+			fw := &faultWriter{budget: k}
+			err := webp.Encode(fw, img, c.Opts.Build())
+			if err == nil && fw.failed {
+				return fmt.Errorf("Encode returned nil although the writer failed after %d of %d bytes (only %d bytes arrived)", k, len(data), fw.buf.Len())
+			}
+			if fw.buf.Len() > k {
+				return fmt.Errorf("writer limited to %d bytes received %d", k, fw.buf.Len())
+			}
+		}
+		o.Label("fault_writer=yes")
 	}
 	if d.RepoErr != nil {
 		return fmt.Errorf("Decode rejects Encode's own output (%s): %v", codec, d.RepoErr)
